@@ -109,3 +109,45 @@ package http
 //@   modifies nothing
 //@   ensures [C19:the-chain-hash-is-the-decoding-of-exactly-the-path-segment] err == nil && urlParamOf(r, chainHashParamKey) != "" ==> h == unhex(urlParamOf(r, chainHashParamKey))
 //@   ensures [C19:no-path-segment-means-no-hash] err == nil && urlParamOf(r, chainHashParamKey) == "" ==> len(h) == 0
+
+// ---- C01 / C19 (HTTP): every handler serves the chain whose hash the path names, and the round the path names ---------------
+// (h is the local the hash of the path was decoded into; the body served is what the look-ups below returned)
+// the chain info a handler works with comes from the node's own client: its period and genesis are in the domain of the
+// round arithmetic (C16): assumption, introduced where the info is fetched
+//@ iface (github.com/drand/drand/v2/common/client.Client).Info(c, ctx) (i, err)
+//@   trusted client library: fetches the chain info; touches no state of the handler
+//@   modifies nothing
+//@ func (*DrandHandler).getChainInfo(h, ctx, chainHash) (info, err)
+//@   props C19
+//@   flags lockcheck
+//@   defines err == nil ==> info != nil && common.validPeriod(info.Period) && common.validGenesis(info.GenesisTime)
+//@   ensures [C19:fetching-chain-info-leaves-the-handler-configuration-alone] h.log == old(h.log) && h.timeout == old(h.timeout)
+//@   call getBeaconHandler#0: assert [C19:chain-info-is-read-from-the-handler-of-the-hash-given] arg1 == chainHash
+
+//@ func (*DrandHandler).PublicRand(h, w, r)
+//@   props C01 C19
+//@   requires [wf] h.log != nil
+//@   call getBeaconHandler#0: assert [C19:http-round-request-is-looked-up-under-the-hash-of-its-path] arg1 == chainHashHex
+//@   call getChainInfo#0: assert [C19:http-round-request-reads-the-info-of-the-chain-of-its-path] arg2 == chainHashHex
+//@   call getRand#0: assert [C01,C19:http-round-request-fetches-the-round-and-chain-of-its-path] arg2 == chainHashHex && arg3 == info && arg4 == roundN && roundN != 0
+//@   call ServeContent#0: assert [C01:http-round-request-serves-what-the-fetch-returned] data != nil
+
+//@ func (*DrandHandler).LatestRand(h, w, r)
+//@   props C01 C19
+//@   requires [wf] h.log != nil
+//@   call getBeaconHandler#0: assert [C19:http-latest-request-is-looked-up-under-the-hash-of-its-path] arg1 == chainHashHex
+//@   call Get#0: assert [C01,C19:http-latest-request-asks-the-client-of-that-chain-for-the-latest-round] arg0 == bh.client && arg2 == 0
+//@   call getChainInfo#0: assert [C19:http-latest-request-reads-the-info-of-the-chain-of-its-path] arg2 == chainHashHex
+
+//@ func (*DrandHandler).ChainInfo(h, w, r)
+//@   props C19
+//@   requires [wf] h.log != nil
+//@   call getChainInfo#0: assert [C19:http-info-request-reads-the-info-of-the-chain-of-its-path] arg2 == chainHashHex
+
+// the request / response objects of net/http carry no state of the handler tables or of the chain info
+//@ pure (*net/http.Request).
+//@ pure net/url.
+//@ pure net/http.ServeContent
+//@ pure (net/http.ResponseWriter).
+//@ pure context.WithTimeout
+//@ pure bytes.NewReader
